@@ -4,6 +4,7 @@ import os
 
 from framework import REPO, ROOT
 from props import C08 as base
+from props import e9_dq
 
 TIE = ["Nsq.Tie.Restart"]
 PROPS = ["Nsq.Props.C05"]
@@ -205,8 +206,9 @@ def run(ctx):
         "Go memory model: one critical section / channel operation = one micro-step (race model)",
         "correspondence harness harness/e5/{life,restart,replay}_test.go (white-box dumps; the harness plays the consumer "
         "pump on real clientV2 objects; Exit + New + LoadMetadata + PersistMetadata + Main on the same data path)",
-        "go-diskqueue v1.1.0 keeps exactly its FIFO content across Close/New (assumption; exercised, not proved); "
-        "Message.WriteTo/decodeMessage round-trip (C07)",
+        "go-diskqueue v1.1.0 keeping exactly its FIFO content across Close/New (what Restart.lookupDQ assumes) is now "
+        "Props.E9DiskQueue.close_reopen_preserves / DQLaw.flush_then_restart over the model of its files, tied by the "
+        "engine E9 leg (Tie.DiskQueue + harness/e9 on the real package); Message.WriteTo/decodeMessage round-trip (C07)",
     ]
     ctx.assumptions += [
         "restart_preserves / restart_cycles: the shutdown is requested in a state with no pending continuation (atomic "
@@ -252,6 +254,8 @@ def run(ctx):
         replay_safe(ctx, binp)
         restart_corr(ctx, binp, corr_broken, ctx.seed, ctx.budget(24, 240), ctx.budget(30, 50), 200)
         restart_corr(ctx, binp, corr_broken, ctx.seed + 1000, ctx.budget(8, 80), ctx.budget(30, 50), 1 << 20)
+        # engine E9: the real go-diskqueue against its model (discharges the disk-queue assumption of restart_preserves)
+        e9_dq.leg(ctx, corr_broken)
     if (ctx.broken_ties or corr_broken) and not ctx.violations:
         ctx.broken_without_input(ctx.broken_ties + corr_broken,
                                  "search: %d evaluations of generated restart histories found no lost, duplicated or "
